@@ -331,6 +331,7 @@ class TokenizerState:
         self.parenlev = 0
         self.continued = False
         self.indents = [0]
+        self.alt_indents = [0]  # the same levels measured with a tab counted as one column
         self.last_line = ""
         self.line = ""
         self.pos = 0
@@ -438,14 +439,16 @@ class EndProg:
 def next_statement(state: TokenizerState) -> Generator[TokenInfo, None, bool | None]:
     if not state.line:
         return False  # break parent loop
-    column = 0
+    column = alt_column = 0
     while state.pos < state.max:  # measure leading whitespace
         if state.line[state.pos] == " ":
             column += 1
+            alt_column += 1
         elif state.line[state.pos] == "\t":
             column = (column // tabsize + 1) * tabsize
+            alt_column += 1
         elif state.line[state.pos] == "\f":
-            column = 0
+            column = alt_column = 0
         else:
             break
         state.pos += 1
@@ -475,19 +478,29 @@ def next_statement(state: TokenizerState) -> Generator[TokenInfo, None, bool | N
         return True  # continue
 
     if column > state.indents[-1]:  # count indents or dedents
+        consistent = alt_column > state.alt_indents[-1]
         state.indents.append(column)
+        state.alt_indents.append(alt_column)
         yield TokenInfo(
             Token.INDENT, state.line[: state.pos], (state.lnum, 0), (state.lnum, state.pos), state.line
         )
-    while column < state.indents[-1]:
-        if column not in state.indents:
-            raise IndentationError(
-                "unindent does not match any outer indentation level",
-                ("<tokenize>", state.lnum, state.pos, state.line, state.lnum, state.pos + 1),
-            )
-        state.indents = state.indents[:-1]
+    else:
+        while column < state.indents[-1]:
+            if column not in state.indents:
+                raise IndentationError(
+                    "unindent does not match any outer indentation level",
+                    ("<tokenize>", state.lnum, state.pos, state.line, state.lnum, state.pos + 1),
+                )
+            state.indents = state.indents[:-1]
+            state.alt_indents = state.alt_indents[:-1]
 
-        yield TokenInfo(Token.DEDENT, "", (state.lnum, state.pos), (state.lnum, state.pos), state.line)
+            yield TokenInfo(Token.DEDENT, "", (state.lnum, state.pos), (state.lnum, state.pos), state.line)
+        consistent = alt_column == state.alt_indents[-1]
+    if not consistent:  # the comparison with the enclosing level depends on the width of a tab
+        raise TabError(
+            "inconsistent use of tabs and spaces in indentation",
+            ("<tokenize>", state.lnum, state.pos, state.line, state.lnum, state.pos + 1),
+        )
     return None
 
 
